@@ -235,3 +235,63 @@ func H_C18_freshChecks() {
 	reach("compared")
 }
 
+
+var c18FloatBounds = []float64{math.Inf(-1), -math.MaxFloat64, -1, 0, 1, math.MaxFloat64, math.Inf(1)}
+var c18FloatNames = []string{"-inf", "-maxfloat", "-1", "0", "1", "maxfloat", "inf"}
+
+// floatEdges: the boundary values of a float range are reachable: for every range with bounds
+// from the given subset of {-Inf, -MaxFloat64, -1, 0, 1, MaxFloat64, +Inf} the solver must find
+// bitstreams on which the real Float64Range returns exactly min, exactly max, and 0 when in range.
+func floatEdges(subset []int) {
+	i := subset[choose("min", len(subset))]
+	j := subset[choose("max", len(subset))]
+	if i > j {
+		return
+	}
+	lo, hi := c18FloatBounds[i], c18FloatBounds[j]
+	g := Float64Range(lo, hi)
+	t := newT(nil, newBufBitStream(symWords("w", 8), false), false, nil)
+	var v float64
+	if catch(func() { v = g.value(t) }) != nil {
+		return
+	}
+	vassert(v >= lo && v <= hi, "C03: Float64Range value out of range")
+	tag := "[" + c18FloatNames[i] + "," + c18FloatNames[j] + "]"
+	if v == hi {
+		reach("max-of-" + tag)
+	}
+	if v == lo {
+		reach("min-of-" + tag)
+	}
+	if v == 0 {
+		reach("zero-in-" + tag)
+	}
+}
+
+// H_C18_floatEdges: ranges over {-Inf, -1, 0, +Inf}.
+func H_C18_floatEdges() { floatEdges([]int{0, 2, 3, 6}) }
+
+// H_C18_floatEdgesFull: all 28 ranges over the seven bounds (thorough tier).
+func H_C18_floatEdgesFull() { floatEdges([]int{0, 1, 2, 3, 4, 5, 6}) }
+
+// H_C18_nativeFloatEdge (native confirmation of an unreachable float edge): 20000 draws of the
+// real generator per range; every edge must show up. Does nothing under gosym.
+func H_C18_nativeFloatEdge() {
+	if symbolic() {
+		return
+	}
+	for i := range c18FloatBounds {
+		for j := i; j < len(c18FloatBounds); j++ {
+			lo, hi := c18FloatBounds[i], c18FloatBounds[j]
+			g := Float64Range(lo, hi)
+			sawLo, sawHi, sawZero := false, false, !(lo <= 0 && 0 <= hi)
+			for seed := uint64(1); seed <= 20000; seed++ {
+				v := g.value(newT(nil, newRandomBitStream(seed, false), false, nil))
+				sawLo = sawLo || v == lo
+				sawHi = sawHi || v == hi
+				sawZero = sawZero || v == 0
+			}
+			vassert(sawLo && sawHi && sawZero, "C18: a boundary value of a float range (min, max or zero) never shows up in 20000 draws")
+		}
+	}
+}
